@@ -31,6 +31,8 @@ type docGen struct {
 	oneCommand bool // always a single `command` string
 	noSig      bool
 	plain      bool // scalars are strings and small non-negative integers only
+	typed      bool // also steps whose kind comes from an explicit `type` key
+	plainNums  bool // floats always have a fractional part (an integral float cannot survive JSON as a float)
 }
 
 func (g *docGen) pick(n int) int { return g.rng.Intn(n) }
@@ -50,6 +52,9 @@ func (g *docGen) scalar() any {
 	case 2:
 		return nil
 	case 3:
+		if g.plainNums {
+			return float64(g.pick(1000)) + 0.5
+		}
 		return float64(g.pick(1000)) / 8
 	default:
 		return g.str("val")
@@ -231,11 +236,16 @@ func (g *docGen) commandStep() orderedJSON {
 	} else {
 		p = append(p, [2]any{"command", []any{g.str("command"), g.str("command")}})
 	}
-	if g.pick(2) == 0 {
-		p = append(p, [2]any{[]string{"key", "id", "identifier"}[g.pick(3)], g.str("stepkey")})
+	// any combination of a primary key and its aliases
+	for _, k := range []string{"key", "id", "identifier"} {
+		if g.pick(3) == 0 {
+			p = append(p, [2]any{k, g.str("stepkey")})
+		}
 	}
-	if g.pick(2) == 0 {
-		p = append(p, [2]any{[]string{"label", "name"}[g.pick(2)], g.str("label")})
+	for _, k := range []string{"label", "name"} {
+		if g.pick(3) == 0 {
+			p = append(p, [2]any{k, g.str("label")})
+		}
 	}
 	if g.pick(2) == 0 {
 		p = append(p, [2]any{"env", g.envMap()})
@@ -290,11 +300,30 @@ func (g *docGen) step(depth int) any {
 		if g.pick(2) == 0 {
 			p = append(p, [2]any{"key", g.str("stepkey")})
 		}
-		p = append(p, [2]any{"steps", g.steps(depth+1, 1+g.pick(3))})
+		switch g.pick(6) {
+		case 0: // no `steps` key at all
+		case 1:
+			p = append(p, [2]any{"steps", nil})
+		case 2:
+			p = append(p, [2]any{"steps", []any{}})
+		default:
+			p = append(p, [2]any{"steps", g.steps(depth+1, 1+g.pick(3))})
+		}
+		for _, k := range []string{"id", "identifier", "label", "name"} {
+			if g.pick(5) == 0 {
+				p = append(p, [2]any{k, g.str("stepkey")})
+			}
+		}
 		p = g.extras(p, g.pick(2))
 		return orderedJSON(p)
 	case r == 10 && !g.noUnknown:
 		return g.freeMap(0, 1+g.pick(3)) // no kind-determining key: an unknown step
+	case r == 11 && g.typed:
+		// the kind given by an explicit `type` key (no kind-determining key needed)
+		t := []string{"wait", "waiter", "block", "input", "manual", "trigger", "command", "script"}[g.pick(8)]
+		p := g.extras([][2]any{{"type", t}}, 1+g.pick(3))
+		g.rng.Shuffle(len(p), func(i, j int) { p[i], p[j] = p[j], p[i] })
+		return orderedJSON(p)
 	default:
 		return g.commandStep()
 	}
@@ -304,6 +333,14 @@ func (g *docGen) steps(depth, n int) []any {
 	l := make([]any, 0, n)
 	for i := 0; i < n; i++ {
 		l = append(l, g.step(depth))
+	}
+	if g.typed && g.pick(3) == 0 {
+		// several steps of one family, each selected by `type`, each with its own keys
+		fam := [][]string{{"wait", "waiter"}, {"block", "input", "manual"}, {"trigger"}}[g.pick(3)]
+		for i, m := 0, 2+g.pick(2); i < m; i++ {
+			p := g.extras([][2]any{{"type", fam[g.pick(len(fam))]}}, 1+g.pick(2))
+			l = append(l, orderedJSON(p))
+		}
 	}
 	return l
 }
@@ -434,4 +471,40 @@ func avRead(d *json.Decoder) (any, error) {
 		return obj{"t": "z"}, nil
 	}
 	return nil, fmt.Errorf("unexpected token %T", t)
+}
+
+// docFromAV: AV -> generated-document form (orderedJSON / []any / scalars).
+func docFromAV(a any) any {
+	m := a.(map[string]any)
+	switch m["t"] {
+	case "s":
+		return m["v"].(string)
+	case "n":
+		s := m["v"].(string)
+		if i, err := strconv.Atoi(s); err == nil {
+			return i
+		}
+		f, _ := strconv.ParseFloat(s, 64)
+		return f
+	case "b":
+		return m["v"].(bool)
+	case "z":
+		return nil
+	case "q":
+		l, _ := m["e"].([]any)
+		out := make([]any, 0, len(l))
+		for _, x := range l {
+			out = append(out, docFromAV(x))
+		}
+		return out
+	case "m":
+		kv, _ := m["kv"].([]any)
+		out := orderedJSON{}
+		for _, p := range kv {
+			pp := p.([]any)
+			out = append(out, [2]any{pp[0], docFromAV(pp[1])})
+		}
+		return out
+	}
+	panic("docFromAV")
 }
